@@ -24,7 +24,14 @@ pub enum Mode {
     /// F-power: cut + loss sets (C09)
     Power { cuts: CutSel },
     /// F-err: fail one mutating call (C14)
-    Err { site: SiteSel, errno: i32, suffix_seed: u64 },
+    Err {
+        site: SiteSel,
+        errno: i32,
+        suffix_seed: u64,
+        /// a second failing call in a *later* operation: the g-th fallible call after the faulted operation returned
+        #[serde(default)]
+        second_gap: Option<u64>,
+    },
     /// F-cut / F-flip on the un-checkpointed log (C10)
     LogDamage { budget: u32, dseed: u64 },
     /// F-forge of snapshot / log / settings (C16)
